@@ -13,6 +13,10 @@ type FileFingerprint struct {
 	ModTime time.Time `json:"mod_time"`
 	Size    int64     `json:"size"`
 	CRC32   uint32    `json:"crc32,omitempty"`
+
+	// SnapshotIndex is the Raft index of the snapshot whose state the file
+	// holds. Zero means unknown (written by a release that did not record it).
+	SnapshotIndex uint64 `json:"snapshot_index,omitempty"`
 }
 
 // WriteToFile saves the fingerprint to a file and fsyncs it to disk.
